@@ -1,10 +1,13 @@
 """Replay of a statement-level schedule on REAL OS threads running carbon's REAL code.
 
-The symbolic run (coroutines) yields a global trace [(thread name, line number), ...] of statement
-starts inside the instrumented functions.  Here the same functions of the unmodified module run on
-real threads with the real threading.Lock; a sys.settrace line tracer makes every thread wait before
-a statement start until it is that statement's turn in the trace.  Threads blocked on the real lock
-simply wait for it, exactly as the cooperative model's 'blocked' steps.
+The symbolic run (coroutines) yields a global trace [(thread name, line number), ...]: entry (T, L)
+means "T has completed everything before L and stands before statement L"; L itself is executed by
+T's next step, i.e. immediately before T's next entry (or its closing (T, END) entry) is appended.
+Here the same functions of the unmodified module run on real threads with the real threading.Lock;
+a sys.settrace line tracer enforces exactly that: on arriving before L a thread (1) waits until all
+earlier entries are registered and registers its own, (2) stays parked until every entry before its
+NEXT one is registered, and only then executes L.  At most one thread executes a statement at any
+time; the lock is always free when a `with lock:` statement is finally executed, as in the model.
 """
 import sys
 import threading
@@ -28,6 +31,7 @@ class Controller(object):
       self.per_thread.setdefault(name, []).append((pos, lineno))
     self.next_idx = dict((n, 0) for n in self.per_thread)
     self.errors = []
+    self.ended = set()
 
   def tracer_for(self, name):
     ctl = self
@@ -60,12 +64,30 @@ class Controller(object):
         return
       if self.gi == pos:
         self.gi = pos + 1
+        self._skip_ended()
       self.next_idx[name] = j + 1
       if self.probe is not None:
         try:
           self.probe(name)           # observation point: between two statements, all threads parked
         except Exception as e:
           self.errors.append('probe failed: %r' % (e,))
+      self.cv.notify_all()
+      # (2) statement L runs only when it is time for this thread's next entry
+      if j + 1 < len(seq):
+        nxt = seq[j + 1][0]
+        self._skip_ended()
+        ok = self.cv.wait_for(lambda: self.gi >= nxt or self.errors, timeout=self.timeout)
+        if not ok:
+          self.errors.append('thread %s timed out before executing line %d (waiting for trace position %d, at %d)' % (name, lineno, nxt, self.gi))
+          self.cv.notify_all()
+
+  def _skip_ended(self):
+    """Pass END entries (and entries of finished threads) at the head of the trace.  Called with cv held."""
+    changed = False
+    while self.gi < len(self.trace) and (self.trace[self.gi][0] in self.ended):
+      self.gi += 1
+      changed = True
+    if changed:
       self.cv.notify_all()
 
   def thread_done(self, name):
@@ -96,14 +118,10 @@ def run_threads(trace, bodies, filename_suffix, func_names, timeout=10.0, probe=
     finally:
       sys.settrace(None)
       done.add(name)
-      # let the others pass the positions this thread will never reach
+      # let the others pass this thread's END entry and the positions it will never reach
       with ctl.cv:
-        changed = True
-        while changed:
-          changed = False
-          while ctl.gi < len(ctl.trace) and ctl.trace[ctl.gi][0] in done:
-            ctl.gi += 1
-            changed = True
+        ctl.ended.add(name)
+        ctl._skip_ended()
         ctl.cv.notify_all()
   ths = [threading.Thread(target=runner, args=(n, f), name=n, daemon=True) for n, f in bodies.items()]
   for t in ths:
@@ -115,6 +133,7 @@ def run_threads(trace, bodies, filename_suffix, func_names, timeout=10.0, probe=
     if t.is_alive():
       problems.append('thread %s did not finish' % t.name)
   for name, seq in ctl.per_thread.items():
-    if ctl.next_idx.get(name, 0) < len(seq) and name in results and results[name][0] == 'ok':
-      problems.append('thread %s finished after %d of %d recorded statements' % (name, ctl.next_idx[name], len(seq)))
+    real = [x for x in seq if x[1] != -1]
+    if ctl.next_idx.get(name, 0) < len(real) and name in results and results[name][0] == 'ok':
+      problems.append('thread %s finished after %d of %d recorded statements' % (name, ctl.next_idx[name], len(real)))
   return results, problems
